@@ -41,9 +41,9 @@ theorem St_store_eq_model (s : GSt σ β) (id : SlabID) (v : σ) :
   unfold PersistentSlabStorage_Store St.store
   by_cases h : id = SlabID.undef
   · simp [h, envM, GErr.ofSt]
-  · simp only [h, decide_false, Bool.false_eq_true, ↓reduceIte]
-    conv => lhs; rw [← conc_abs s]
-    simp [conc, abs]
+  · have h' : ¬ SlabID.undef = id := fun e => h e.symm
+    cases s with
+    | mk b cch d t => cases b; simp [h, h', conc, abs]
 
 /-- `Store(id, nil)` records a deletion, exactly as `Remove(id)` does. -/
 theorem St_store_nil_eq_remove (s : GSt σ β) (id : SlabID) :
@@ -59,9 +59,9 @@ theorem St_remove_eq_model (s : GSt σ β) (id : SlabID) :
   unfold PersistentSlabStorage_Remove St.remove
   by_cases h : id = SlabID.undef
   · simp [h, envM, GErr.ofSt]
-  · simp only [h, decide_false, Bool.false_eq_true, ↓reduceIte]
-    conv => lhs; rw [← conc_abs s]
-    simp [conc, abs]
+  · have h' : ¬ SlabID.undef = id := fun e => h e.symm
+    cases s with
+    | mk b cch d t => cases b; simp [h, h', conc, abs]
 
 /-! ### Retrieve -/
 
@@ -464,6 +464,7 @@ variable {B ε : Type} (env : PersistentSlabStorage_Env σ β B ε)
 theorem St_wf_store (s : PersistentSlabStorage σ B) (id : SlabID) (slab : Option σ) (h : WF s) :
     WF (PersistentSlabStorage_Store env s id slab).2 := by
   unfold PersistentSlabStorage_Store
+  simp only
   split
   · exact h
   · exact ⟨AList.nodup_keys_insert _ _ _ h.1, h.2⟩
